@@ -154,6 +154,33 @@ func runC18(seed int64, tier string, outDir string) *result {
 		if a, _ := c08CidsEqual(oe.Refs, same.GetRefs()); !a {
 			fail("readers", "C18:same-key-links-differ", "refs differs for a reader with the same key", desc)
 		}
+		// (b'') the entry as a reader with the key LOADED it, stored again - into another store through the
+		//       keyed codec (a replicator), and through the public Entry.ToMultihash: no link in clear either
+		{
+			api2, d2 := newAPI()
+			for how, store := range []func() (cid.Cid, error){
+				func() (cid.Cid, error) { return entry.ToMultihashWithIO(ctx, same, api2, nil, rio) },
+				func() (cid.Cid, error) { return same.(*entry.Entry).ToMultihash(ctx, api2, nil) },
+			} {
+				rc, err := store()
+				if err != nil {
+					continue
+				}
+				what := []string{"loaded with the key and stored again through the keyed codec", "loaded with the key and stored again through Entry.ToMultihash"}[how]
+				rraw := d2.raw(rc)
+				for _, l := range links {
+					for form, b := range c18Forms(l) {
+						if len(b) >= 8 && bytes.Contains(rraw, b) {
+							fail("scan", "C18:link-in-clear", fmt.Sprintf("%s: the block contains link %s in %s form", what, l, form), desc)
+						}
+					}
+				}
+				if rn, err := api2.Dag().Get(ctx, rc); err == nil && len(rn.Links()) != 0 {
+					fail("links", "C18:traversable-link", fmt.Sprintf("%s: node.Links() has %d items", what, len(rn.Links())), desc)
+				}
+				stats["loaded-entries-stored-again"]++
+			}
+		}
 		nokey, err := entry.FromMultihashWithIO(ctx, api, oe.Hash, provider, dio)
 		if err != nil {
 			fail("readers", "C18:no-key-read-error", err.Error(), desc)
